@@ -10,6 +10,12 @@ use mccore::{decode, guard, product, viol, Ctx, Json, Report};
 use refmodel::codec::{self, option_size, RefMsg};
 
 fn limit_oracle(fam: &str, i: u64, n: u64, m: &RefMsg, ctx: &Ctx, rep: &mut Report) {
+    limit_oracle_with(fam, i, n, m, None, ctx, rep)
+}
+
+/// `cleared`: an option number that is added and cleared again before the message's own options are added (its
+/// emptied list may stay in the packet; it is not part of the message).
+fn limit_oracle_with(fam: &str, i: u64, n: u64, m: &RefMsg, cleared: Option<u16>, ctx: &Ctx, rep: &mut Report) {
     crate::common::asan_case(fam, i);
     let reference = match codec::enc(m) {
         Ok(b) => b,
@@ -19,7 +25,11 @@ fn limit_oracle(fam: &str, i: u64, n: u64, m: &RefMsg, ctx: &Ctx, rep: &mut Repo
         }
     };
     let l = reference.len();
-    let p = build(m);
+    let mut p = build(m);
+    if let Some(c) = cleared {
+        p.add_option(coap_lite::CoapOption::from(c), vec![0xC1, 0xEA]);
+        p.clear_option(coap_lite::CoapOption::from(c));
+    }
     let mut limits: Vec<usize> = vec![l, l + 1, 0, 3, 4, Packet::MAX_SIZE, Packet::MAX_SIZE - 1, Packet::MAX_SIZE + 1, usize::MAX];
     if l > 0 {
         limits.push(l - 1);
@@ -338,12 +348,12 @@ pub fn run(ctx: &Ctx, rep: &mut Report) {
     {
         let deltas: [usize; 8] = [0, 1, 12, 13, 14, 268, 269, 270];
         let lens: [usize; 7] = [0, 1, 12, 13, 268, 269, 270];
-        let radices = [8u64, 7, 8, 7, 2];
+        let radices = [8u64, 7, 8, 7, 2, 3];
         let n = product(&radices);
         ctx.family(
             rep,
             "F4-option-pairs",
-            "two options over delta {0,1,12,13,14,268,269,270} x length {0,1,12,13,268,269,270} (complete pairs) x payload {none, 3 bytes}: the limit must count extension bytes and the marker",
+            "two options over delta {0,1,12,13,14,268,269,270} x length {0,1,12,13,268,269,270} (complete pairs) x payload {none, 3 bytes} x {no cleared option, an added-then-cleared option below / between}: the limit must count extension bytes and the marker",
             n,
             true,
             |i, rep| {
@@ -362,7 +372,14 @@ pub fn run(ctx: &Ctx, rep: &mut Report) {
                     ],
                     payload: if d[4] == 1 { vec![1, 2, 3] } else { vec![] },
                 };
-                limit_oracle("F4-option-pairs", i, n, &m, ctx, rep);
+                // an added-then-cleared option below / between / above the two (a number neither of them uses)
+                let unused = |c: usize| if c != n1 && c != n2 { Some(c as u16) } else { None };
+                let cleared = match d[5] {
+                    0 => None,
+                    1 => unused(0).or_else(|| unused(n2 + 7)),
+                    _ => unused(n1 + 1),
+                };
+                limit_oracle_with("F4-option-pairs", i, n, &m, cleared, ctx, rep);
             },
         );
     }
